@@ -1,3 +1,171 @@
 #[allow(unused_imports)] use vstd::arithmetic::{div_mod::*, power2::*, mul::*};
 #[allow(unused_imports)] use vstd::bits::*;
 #[allow(unused_imports)] use vstd::std_specs::bits::*;
+
+verus! {
+impl PM1Base {
+    /// views of the private fields
+    pub closed spec fn fs(&self) -> Seq<u32> { self.factors@ }
+    pub closed spec fn ls(&self) -> Seq<u32> { self.larges@ }
+    /// representation invariant established by `new`
+    pub open spec fn wf(&self) -> bool {
+        &&& pm1_small_ok(prod32(self.fs()))
+        &&& self.fs().len() <= 0x2_0000
+        &&& pm1_larges_ok(self.ls())
+    }
+}
+
+pub open spec fn prod32(s: Seq<u32>) -> nat
+    decreases s.len()
+{
+    if s.len() == 0 { 1 } else { prod32(s.drop_last()) * (s.last() as nat) }
+}
+
+/// for every prime q < 500 the largest power of q below 1024 divides the stage-1 exponent
+pub open spec fn pm1_small_ok(total: nat) -> bool {
+    forall|q: nat| #[trigger] is_prime_dv(q) && q < 500 ==> dvd(crate::ecm::tp(q, 1024, q), total)
+}
+
+/// the stage-2 table: consecutive primes starting with 503 (no prime is skipped), even gaps of at most 128
+pub open spec fn pm1_larges_ok(l: Seq<u32>) -> bool {
+    &&& l.len() >= 1
+    &&& l[0] == 503
+    &&& all_prime(l)
+    &&& forall|i: int| 1 <= i < l.len() ==> (#[trigger] l[i - 1]) < l[i] && (l[i] - l[i - 1]) % 2 == 0 && l[i] - l[i - 1] <= 128
+    &&& forall|i: int, q: nat| 1 <= i < l.len() && (#[trigger] l[i - 1] as nat) < q < (l[i] as nat) ==> !#[trigger] is_prime_dv(q)
+}
+
+/// ceil(len / k): the number of chunks of `s.chunks(k)` (index_loops pre-normalisation)
+pub open spec fn chunk_count(len: usize, k: usize) -> usize {
+    if len == 0 { 0 } else { ((len - 1) / (k as int) + 1) as usize }
+}
+
+pub proof fn lemma_chunk_count(len: usize, k: usize, c: int)
+    requires k > 0, 0 <= c < chunk_count(len, k)
+    ensures c * (k as int) < len
+{
+    let q = (len - 1) as int / k as int;
+    vstd::arithmetic::div_mod::lemma_fundamental_div_mod((len - 1) as int, k as int);
+    vstd::arithmetic::div_mod::lemma_mod_bound((len - 1) as int, k as int);
+    vstd::arithmetic::div_mod::lemma_div_pos_is_pos((len - 1) as int, k as int);
+    vstd::arithmetic::div_mod::lemma_div_is_ordered_by_denominator((len - 1) as int, 1, k as int);
+    vstd::arithmetic::div_mod::lemma_div_basics((len - 1) as int);
+    assert(c <= q);
+    crate::verif_specs::nl::lemma_mul_le(c, q, k as int);
+    assert(q * (k as int) == (k as int) * q) by (nonlinear_arith);
+}
+
+#[verifier::when_used_as_spec(chunk_count)]
+fn ol_chunk_count(len: usize, k: usize) -> (r: usize)
+    requires k > 0,
+    ensures r == chunk_count(len, k),
+{
+    if len == 0 { return 0; }
+    proof {
+        vstd::arithmetic::div_mod::lemma_div_is_ordered_by_denominator((len - 1) as int, 1, k as int);
+        vstd::arithmetic::div_mod::lemma_div_basics((len - 1) as int);
+        vstd::arithmetic::div_mod::lemma_div_pos_is_pos((len - 1) as int, k as int);
+    }
+    (len - 1) / k + 1
+}
+
+/// the c-th chunk of `s.chunks(k)`: s[c k .. min(c k + k, len)]
+fn ol_chunk<T>(s: &[T], c: usize, k: usize) -> (r: &[T])
+    requires k > 0, (c as int) * (k as int) < s@.len(),
+    ensures
+        r@ == s@.subrange(c as int * k as int, if c as int * k as int + k as int <= s@.len() { c as int * k as int + k as int } else { s@.len() as int }),
+        1 <= r@.len() <= k,
+{
+    let len = s.len();
+    proof { assert((c as int) * (k as int) >= 0) by (nonlinear_arith) requires c >= 0, k >= 0; assert((c as int) * (k as int) < len); }
+    let lo = c * k;
+    let hi = if len - lo < k { len } else { lo + k };
+    &s[lo..hi]
+}
+} // verus!
+
+verus! {
+/// the primes of the table processed so far that are below 500 have their top power below 1024 in the exponent
+pub open spec fn pm1_idx_ok(primes: Seq<u32>, total: nat, upto: int) -> bool {
+    forall|j: int| 0 <= j < upto && (primes[j] as nat) < 500 ==> dvd(#[trigger] crate::ecm::tp(primes[j] as nat, 1024, primes[j] as nat), total)
+}
+
+pub proof fn lemma_prod32_push(f: Seq<u32>, b: u32)
+    ensures prod32(f.push(b)) == prod32(f) * (b as nat)
+{
+    assert(f.push(b).drop_last() =~= f);
+}
+
+pub proof fn lemma_pm1_idx_ok_step(primes: Seq<u32>, total: nat, i: int, tpow: nat)
+    requires pm1_idx_ok(primes, total, i), 0 <= i < primes.len(), tpow == crate::ecm::tp(primes[i] as nat, 1024, primes[i] as nat), tpow > 0
+    ensures pm1_idx_ok(primes, total * tpow, i + 1)
+{
+    assert forall|j: int| 0 <= j < i + 1 && (primes[j] as nat) < 500 implies dvd(#[trigger] crate::ecm::tp(primes[j] as nat, 1024, primes[j] as nat), total * tpow) by {
+        if j < i { lemma_dvd_mul_right(crate::ecm::tp(primes[j] as nat, 1024, primes[j] as nat), total, tpow); }
+        else { lemma_dvd_mul(tpow, total); }
+    }
+}
+
+pub proof fn lemma_pm1_idx_ok_skip(primes: Seq<u32>, total: nat, i: int)
+    requires pm1_idx_ok(primes, total, i), 0 <= i < primes.len(), primes[i] >= 500
+    ensures pm1_idx_ok(primes, total, i + 1)
+{
+}
+
+pub proof fn lemma_primes_bound_70000()
+    ensures primes_bound(70000) == 1_190_000
+{
+    vstd::std_specs::bits::axiom_u32_leading_zeros(70000);
+    axiom_u32_lz_arith(70000);
+    let lz = u32_leading_zeros(70000);
+    lemma2_to64();
+    if lz < 15 { lemma_pow2_strictly_increases(16, (31 - lz) as nat); }
+    if lz > 16 { lemma_pow2_strictly_increases((32 - lz) as nat, 16); }
+}
+
+/// end of `PM1Base::new`: the invariants of the loop give the representation invariant
+pub proof fn lemma_pm1_finish(primes: Seq<u32>, larges: Seq<u32>, s: int, total: nat)
+    requires
+        all_prime(primes), increasing(primes), complete(primes), primes.len() >= 1,
+        forall|q: nat| #[trigger] is_prime_dv(q) && q <= 503 ==> in_list(primes, q as int),
+        is_prime_dv(503), !is_prime_dv(500), !is_prime_dv(501), !is_prime_dv(502),
+        forall|idx: int| 0 <= idx < primes.len() ==> (#[trigger] primes[idx] as int) < 1_190_000,
+        0 <= s <= primes.len(),
+        forall|j: int| 0 <= j < s ==> (#[trigger] primes[j]) < 500,
+        s < primes.len() ==> primes[s] >= 500,
+        larges.len() == (if primes.len() - s <= 65536 { primes.len() - s } else { 65536 }),
+        forall|k: int| 0 <= k < larges.len() ==> (#[trigger] larges[k]) == primes[s + k],
+        pm1_idx_ok(primes, total, primes.len() as int),
+    ensures
+        pm1_small_ok(total), pm1_larges_ok(larges),
+{
+    // every prime below 500 is an entry of the table
+    assert forall|q: nat| #[trigger] is_prime_dv(q) && q < 500 implies dvd(crate::ecm::tp(q, 1024, q), total) by {
+        assert(in_list(primes, q as int));
+        let j = choose|j: int| 0 <= j < primes.len() && #[trigger] primes[j] as int == q as int;
+        assert(dvd(crate::ecm::tp(primes[j] as nat, 1024, primes[j] as nat), total));
+    }
+    // 503 is an entry, at an index >= s; the entry at s is a prime in [500, 503], hence 503
+    assert(in_list(primes, 503));
+    let j0 = choose|j: int| 0 <= j < primes.len() && #[trigger] primes[j] as int == 503;
+    if j0 < s { assert(primes[j0] < 500); }
+    assert(s < primes.len());
+    if s < j0 { assert(primes[s] < primes[j0]); }
+    assert(is_prime_dv(primes[s] as nat));
+    assert(primes[s] == 503);
+    assert(larges.len() >= 1);
+    assert(larges[0] == primes[s + 0]);
+    assert forall|idx: int| 0 <= idx < larges.len() implies is_prime_dv(#[trigger] larges[idx] as nat) by {
+        assert(larges[idx] == primes[s + idx]);
+    }
+    assert forall|i: int| 1 <= i < larges.len() implies (#[trigger] larges[i - 1]) < larges[i] && (larges[i] - larges[i - 1]) % 2 == 0 && larges[i] - larges[i - 1] <= 128 by {
+        assert(larges[i - 1] == primes[s + i - 1] && larges[i] == primes[s + i]);
+        if s + i - 1 > s { assert(primes[s] < primes[s + i - 1]); }
+        lemma_adjacent_gap(primes, s + i - 1);
+    }
+    assert forall|i: int, q: nat| 1 <= i < larges.len() && (#[trigger] larges[i - 1] as nat) < q < (larges[i] as nat) implies !#[trigger] is_prime_dv(q) by {
+        assert(larges[i - 1] == primes[s + i - 1] && larges[i] == primes[s + i]);
+        lemma_adjacent_primes(primes, s + i - 1, q);
+    }
+}
+} // verus!
